@@ -3,6 +3,11 @@
 From Coq Require Import Extraction ExtrOcamlBasic ExtrOcamlZBigInt ZArith List.
 From TF Require Import Word MmrIndexGen MmrIndex Forest.
 Extraction Language OCaml.
+(* Z.pow is not among the operations ExtrOcamlZBigInt maps to zarith; the structural Pos.iter version costs 64
+   multiplications for every 2^64 in Word.wrap.  Mapped like the operations of ExtrOcamlZBigInt (a ^ b = 0 for
+   b < 0, as in Coq).  Named in the trusted base of C16. *)
+Extract Constant Z.pow =>
+  "(fun a b -> if Big_int_Z.sign_big_int b < 0 then Big_int_Z.zero_big_int else Big_int_Z.power_big_int_positive_big_int a b)".
 Extraction "../ocaml/gen_c16/model.ml"
   left_child left_child_ok right_child right_child_ok
   leaf_index_to_mt_index_and_peak_index leaf_index_to_mt_index_and_peak_index_ok
